@@ -154,7 +154,7 @@ func (h *C19HostFacts) AddCommandLine(args []string) {
 // AddThisProcess registers the facts of the calling process: host name
 // (os.Hostname and uname nodename), domain name, user name and home directory
 // (account database and $USER / $LOGNAME / $HOME), working directory, command
-// line.
+// line, content of the host identity files /etc/hostname and /etc/machine-id.
 func (h *C19HostFacts) AddThisProcess() {
 	if n, err := os.Hostname(); err == nil {
 		h.AddHostName("os.Hostname", n)
@@ -178,6 +178,24 @@ func (h *C19HostFacts) AddThisProcess() {
 		h.AddPath("command line#os.Executable", exe)
 	}
 	h.AddCommandLine(os.Args)
+	h.AddIdentityFiles()
+}
+
+// AddIdentityFiles registers what the host identity files of this machine
+// hold: /etc/hostname and /etc/machine-id (the latter also written as a UUID).
+func (h *C19HostFacts) AddIdentityFiles() {
+	if b, err := os.ReadFile("/etc/hostname"); err == nil {
+		h.AddHostName("/etc/hostname", strings.TrimSpace(string(b)))
+	}
+	for _, f := range []string{"/etc/machine-id", "/var/lib/dbus/machine-id"} {
+		if b, err := os.ReadFile(f); err == nil {
+			m := strings.TrimSpace(string(b))
+			h.Add("host identity file#"+f, m)
+			if len(m) == 32 {
+				h.Add("host identity file#"+f+"-as-uuid", m[0:8]+"-"+m[8:12]+"-"+m[12:16]+"-"+m[16:20]+"-"+m[20:])
+			}
+		}
+	}
 }
 
 // Merge copies the host facts into a needle map of the judge.
